@@ -18,6 +18,10 @@ def std_outputs(mode, line):
         return SHOW_VERSION
     if c == "show run":
         return LONG
+    if c == "show ansi":
+        # escape sequences all over the output, so that 1-byte / PRNG cuts end reads inside a sequence (Channel.read -> _strip_ansi_read,
+        # the held-back beginning of a cut sequence): CSI colour, cursor movement, erase line, a bare ESC 7/8 pair
+        return "\x1b[1mInterface\x1b[0m  \x1b[32;1mup\x1b[0m\n\x1b[2K\x1b[1;24rGi0/1 \x1b[31mdown\x1b[39m\x1b7 saved\x1b8\n\x1b[?25lend\x1b[?25h"
     if c == "show clock":
         return "*00:00:01.000 UTC Mon Jan 1 2024"
     if c == "show ambiguous":
